@@ -25,6 +25,7 @@ Act(e) ==
       [] e.ev = "Drop"       -> Drop(e.i)
       [] e.ev = "Dup"        -> Dup(e.i)
       [] e.ev = "Delay"      -> Delay(e.i)
+      [] e.ev = "Shrink"     -> Shrink(e.i)
       [] e.ev = "CTimeout"   -> C_timeout /\ Emit0 /\ act' = [n |-> "CTimeout", i |-> 0]
       [] e.ev = "STimeout"   -> S_timeout /\ Emit0 /\ act' = [n |-> "STimeout", i |-> 0]
       [] e.ev = "AppRespond" -> AppRespond /\ Emit0 /\ act' = [n |-> "AppRespond", i |-> 0]
@@ -66,7 +67,7 @@ Bind(e) == /\ now' = e.st.now /\ net' = Strip(e.st.net) /\ tx' = Strip(e.st.tx) 
            /\ sInd' = e.st.sInd /\ sApp' = e.st.sApp
            /\ c' = CBind(e.st.c) /\ s' = SBind(e.st.s)
            /\ nDrop' = nDrop + (IF e.ev = "Drop" THEN 1 ELSE 0) /\ nDup' = nDup + (IF e.ev = "Dup" THEN 1 ELSE 0)
-           /\ nDelay' = nDelay + (IF e.ev = "Delay" THEN 1 ELSE 0)
+           /\ nDelay' = nDelay + (IF e.ev = "Delay" THEN 1 ELSE 0) /\ nShrink' = nShrink + (IF e.ev = "Shrink" THEN 1 ELSE 0)
            /\ act' = [n |-> e.ev, i |-> e.i]
 
 \* monitors on the step just taken (primed = logged post-state); res = what the real stacks still hold
@@ -82,6 +83,7 @@ Failing(e) ==
     (IF SeqMatchesIndex' THEN {} ELSE {"SeqConsecutive"}) \cup
     (IF WindowBound' THEN {} ELSE {"WindowBound"}) \cup
     (IF WindowRange' THEN {} ELSE {"WindowRange"}) \cup
+    (IF A_WindowRespectsAck THEN {} ELSE {"WindowBound"}) \cup
     (IF SingleFaultRepaired' THEN {} ELSE {"SingleFaultRepaired"}) \cup
     (IF A_SilenceAfterOutcome THEN {} ELSE {"SilenceAfterOutcome"}) \cup
     (IF A_AbortOnlyAfterAllRetries THEN {} ELSE {"AbortOnlyAfterAllRetries"}) \cup
